@@ -23,6 +23,16 @@ var VerifDir = func() string {
 	return "/verif"
 }()
 
+// OutDir is where evidence and replay files are written (normally VerifDir;
+// runs against deliberately broken trees set VERIF_OUT_DIR to keep the
+// committed evidence untouched).
+var OutDir = func() string {
+	if d := os.Getenv("VERIF_OUT_DIR"); d != "" {
+		return d
+	}
+	return VerifDir
+}()
+
 type Finding struct {
 	Property string `json:"property"`
 	ID       string `json:"id"`
@@ -191,7 +201,7 @@ func (c *Check) Violation(replay interface{}, summary string) {
 	}
 	b, _ := json.MarshalIndent(map[string]interface{}{"property": c.ID, "summary": summary, "case": replay}, "", " ")
 	h := sha1.Sum(b)
-	dir := filepath.Join(VerifDir, "replays")
+	dir := filepath.Join(OutDir, "replays")
 	os.MkdirAll(dir, 0o755)
 	p := filepath.Join(dir, fmt.Sprintf("%s-%x.json", c.ID, h[:6]))
 	os.WriteFile(p, b, 0o644)
@@ -245,8 +255,8 @@ func (c *Check) Finish() int {
 		ev["assumptions"] = []string{}
 	}
 	b, _ := json.MarshalIndent(ev, "", " ")
-	os.MkdirAll(filepath.Join(VerifDir, "evidence"), 0o755)
-	if err := os.WriteFile(filepath.Join(VerifDir, "evidence", c.ID+".json"), b, 0o644); err != nil {
+	os.MkdirAll(filepath.Join(OutDir, "evidence"), 0o755)
+	if err := os.WriteFile(filepath.Join(OutDir, "evidence", c.ID+".json"), b, 0o644); err != nil {
 		fmt.Fprintln(os.Stderr, "cannot write evidence:", err)
 		return 2
 	}
